@@ -151,6 +151,8 @@ def run(ctx, model_ok):
                                        '(numeric parameters come from another event)'})
     dc.scale_pipeline(ctx, R, [k for k in rng.sample(keys, 3) if not R.host_enum_words(k)] + ['BSC_read'], [1100, 4200] if ctx.quick() else [1100, 2100, 4200, 66000],
                       'with many records between START and END the call is not rendered from its own START record')
+    dc.overlap_pipeline(ctx, R, [('BSC_read', 'BSC_write'), ('BSC_open', 'BSC_read'), ('BSC_sys_close', 'BSC_lseek'), ('BSC_write', 'BSC_getpid')],
+                        'when two calls of a thread overlap, a call is not rendered from its own START record')
     ctx.samples = [{'key': metas[0][0], 'first': metas[0][1], 'last': metas[0][2],
                     'impl_text': bytes.fromhex(res[0].get('text', '')).decode('utf-8', 'replace')}]
     if model_ok:
